@@ -8,6 +8,7 @@ import (
 	"sync"
 	"sync/atomic"
 	"unicode"
+	"unicode/utf8"
 
 	"go.flow.arcalot.io/pluginsdk/schema"
 
@@ -178,13 +179,38 @@ func builtinUnits() []struct {
 
 var nameAlphabet = []rune("abcdefgHKMxyzQ%$^*+()[]{}|\\?#@_μé-")
 
+// swapCase changes the case of the k-th letter of s that has another case (of every such letter for k >= 4).
+func swapCase(s string, k int) string {
+	rs := []rune(s)
+	n := 0
+	for i, c := range rs {
+		o := c
+		if unicode.IsUpper(c) {
+			o = unicode.ToLower(c)
+		} else if unicode.IsLower(c) {
+			o = unicode.ToUpper(c)
+		}
+		if o == c || utf8.RuneLen(o) < 0 {
+			continue
+		}
+		if k >= 4 || n == k {
+			rs[i] = o
+		}
+		n++
+	}
+	return string(rs)
+}
+
 func genUnitName(r *wk.Rand, used map[string]bool, prefixOf []string) string {
 	for {
 		var sb strings.Builder
 		if len(prefixOf) > 0 && r.Chance(35) {
 			// a name that is a prefix or an extension of an existing one
 			p := wk.Pick(r, prefixOf)
-			if r.Bool() && len([]rune(p)) > 1 {
+			if flipped := swapCase(p, r.Intn(8)); r.Chance(30) && flipped != p {
+				// the same name in another case is a different name ("b" and "B", "m" and "M")
+				sb.WriteString(flipped)
+			} else if r.Bool() && len([]rune(p)) > 1 {
 				rs := []rune(p)
 				sb.WriteString(string(rs[:1+r.Intn(len(rs)-1)]))
 			} else {
@@ -551,7 +577,11 @@ func genWellFormed(r *wk.Rand, u *refUnits, allowFrac, big bool) string {
 func genNearMiss(r *wk.Rand, u *refUnits) (string, string) {
 	s := genWellFormed(r, u, r.Bool(), false)
 	rs := []rune(s)
-	switch r.Intn(9) {
+	switch r.Intn(10) {
+	case 9: // unit names in another case: "5S", "3Kb", "2 MINUTES" - whatever the reference makes of the result
+		if f := swapCase(s, r.Intn(8)); f != s {
+			return f, "letter case changed"
+		}
 	case 8: // a bare count with a sign, which the grammar does not have
 		n := 1 + r.Intn(100000)
 		return fmt.Sprintf(wk.Pick(r, []string{"-%d", "+%d", " -%d ", "-%d ", "- %d", "+0%d", "-%d.5"}), n), "signed bare count"
